@@ -2,8 +2,8 @@ import ChiProofs.Lemmas.MechConfigRefine
 import Mathlib.Data.List.Perm.Basic
 import Mathlib.Data.List.Nodup
 /-!
-# C11 lemmas, part 2: on well-ordered histories the code as it is (`legacy`) takes the same steps as the
-intended machine (`step_legacy_eq`), with the invariant `Inv` tying the ghost flags of the history to
+# C11 lemmas, part 2: on well-ordered histories the machine before bcb3fc2 (`stepLegacy`) takes the same
+steps as the code as it is (`step_legacy_eq`), with the invariant `Inv` tying the ghost flags of the history to
 the configuration reached.
 -/
 set_option linter.unusedSectionVars false
@@ -158,8 +158,8 @@ structure Inv (h : Hist) (c : Config) : Prop where
 
 theorem setAdmin_legacy_eq (h : Hist) (c : Config) (a : Admin) (hw : b.WF) (hi : Inv b h c)
     (hal : h.allows (.setAdmin a) = true) :
-    setAdminLegacy b (buildM b c) a = setAdminIntended b (buildM b c) a := by
-  unfold setAdminLegacy setAdminIntended
+    setAdminLegacy b (buildM b c) a = setAdminM b (buildM b c) a := by
+  unfold setAdminLegacy setAdminM
   cases hv : validAdmin b a with
   | some e => rfl
   | none =>
@@ -393,16 +393,16 @@ theorem good_of_inv (h : Hist) (c : Config) (hi : Inv b h c) : Good b c := by
       · subst h1; simp at he
       · exact ih h1
 
-/-- on an allowed call the code as it is and the intended behaviour coincide -/
+/-- on an allowed call the machine before bcb3fc2 and the code as it is coincide -/
 theorem step_legacy_eq (h : Hist) (c : Config) (op : Op) (hw : b.WF) (hi : Inv b h c)
-    (hal : h.allows op = true) : step b true (build b c) op = step b false (build b c) op := by
+    (hal : h.allows op = true) : stepLegacy b (build b c) op = step b (build b c) op := by
   cases op with
   | setAdmin a =>
     cases hr : c.red with
     | some r => rw [build_some b c r hr]; rfl
     | none =>
       rw [build_none b c hr]
-      simp only [step, stepPlain]
+      simp only [stepLegacy, step, stepPlain]
       by_cases hp : b.pkpd
       · simp only [hp, Bool.not_true, Bool.false_eq_true, if_false, if_true]
         rw [setAdmin_legacy_eq b h c a hw hi hal]
